@@ -2,11 +2,36 @@
 and monitor: harness/exec_props.py (monitor family 17 of Exec/ExecTrace.v)."""
 from harness import exec_props as X
 
-BIAS = {}
-TINY = None
+
+class _Bias(dict):
+    """Three of four random histories are dry runs, the fourth is a real run of the same
+    generator (exec_props asks bias.get("dry") once per history: True = dry run, None = the
+    generator's default mix), so dry and real runs of the same graph shapes, throttles and
+    attempt counts sit side by side in every run."""
+
+    def get(self, k, d=None):
+        if k == "dry":
+            self.n = getattr(self, "n", 0) + 1
+            return True if self.n % 4 else None
+        return dict.get(self, k, d)
+
+
+# dry runs must ignore the scheduler completely: feed them failing / empty queries, cancel
+# requests (code 173: a cancel in a dry run cancels nothing) and failing submissions
+BIAS = _Bias({"qerr_p": 0.15, "qnojobs_p": 0.15, "cancel_p": 0.06, "sub_ok_p": 0.6, "throttled": True,
+              "attempts": [1, 2, 3], "max_polls": 12, "nmax": 9})
+# exhaustive tiny scope: every tiny graph dry (throttle 0, 1, 2) and real (throttle 0, 1) under
+# the ideal scheduler answers (every queried job absent or FINISHED), cancel request at every poll
+TINY = {"depth_quick": 4, "depth_thorough": 5, "graphs_quick": 6,
+        "cfgs": [{"throttle": 0, "attempts": 1, "dry": True}, {"throttle": 1, "attempts": 2, "dry": True},
+                 {"throttle": 2, "attempts": 1, "dry": True},
+                 {"throttle": 0, "attempts": 1, "dry": False}, {"throttle": 1, "attempts": 1, "dry": False}],
+        "enum": {"q": True, "cancel": True, "subs": False, "kinds": ["absent", "FINISHED"]},
+        "limit_quick": 8000, "limit_thorough": 120000}
 
 
 def run(ck):
+    BIAS.n = 0
     return X.run_exec(ck, 17, BIAS, tiny=TINY)
 
 
